@@ -369,6 +369,24 @@ pub fn generate(rng: &mut Rng, tier: Tier) -> Value {
                 raw = Some(b);
             }
         }
+        if utf16.is_none() && raw.is_none() && rng.chance(1, 30) {
+            // ill-formed UTF-8 that decodes (bit-wise) to values above U+10FFFF or to surrogates, placed
+            // where a code point is handed on: regular-expression classes, identifiers, strings, templates
+            let bad: &[&[u8]] = &[&[0xF4, 0x90, 0x80, 0x80], &[0xF7, 0xBF, 0xBF, 0xBF], &[0xFF, 0xBF, 0xBF, 0xBF], &[0xF5, 0x80, 0x80, 0x80], &[0xED, 0xA0, 0x80], &[0xF8, 0x88, 0x80, 0x80, 0x80]];
+            let b1 = *rng.pick(bad);
+            let b2 = *rng.pick(bad);
+            let mut out: Vec<u8> = vec![];
+            let push = |out: &mut Vec<u8>, s: &str| out.extend_from_slice(s.as_bytes());
+            match rng.below(6) {
+                0 => { push(&mut out, "/["); out.extend_from_slice(b1); push(&mut out, "-"); out.extend_from_slice(b2); push(&mut out, "]/u.test('a');"); }
+                1 => { push(&mut out, "/"); out.extend_from_slice(b1); push(&mut out, "+|[^"); out.extend_from_slice(b2); push(&mut out, "]/v.exec('abc');"); }
+                2 => { push(&mut out, "var x"); out.extend_from_slice(b1); push(&mut out, " = 1; x"); out.extend_from_slice(b1); push(&mut out, ";"); }
+                3 => { push(&mut out, "'"); out.extend_from_slice(b1); push(&mut out, "'.codePointAt(0) + `"); out.extend_from_slice(b2); push(&mut out, "${1}`.length;"); }
+                4 => { push(&mut out, "new RegExp('["); out.extend_from_slice(b1); push(&mut out, "]', 'u').test('"); out.extend_from_slice(b2); push(&mut out, "');"); }
+                _ => { push(&mut out, "/(?<n"); out.extend_from_slice(b1); push(&mut out, ">a)\\k<n"); out.extend_from_slice(b1); push(&mut out, ">/.test('aa');"); }
+            }
+            raw = Some(out);
+        }
         let len = raw.as_ref().map_or(text.len(), Vec::len);
         let reader = if utf16.is_some() {
             None
